@@ -27,16 +27,23 @@ void q120_vec_mat1col_product_bbc_ref(q120_mat1col_product_bbc_precomp* precomp,
 #define TERM(x, y, k) ((u128)(x)[2 * (k)] * (u128)(y)[2 * (k)] + (u128)(x)[2 * (k) + 1] * (u128)(y)[2 * (k) + 1])
 #define VK(r, k) ((u128)(r)[2 * (k)] + (((u128)(r)[2 * (k) + 1]) << 32))
 #define VKOLD(r, k) ((u128)__CPROVER_old((r)[2 * (k)]) + (((u128)__CPROVER_old((r)[2 * (k) + 1])) << 32))
-// contract used at the call sites of the outer function (replace): word bounds + exact value + ghost accumulation
+// contract used at the call sites of the outer function (replace): word bounds + the exact value RELATION through a ghost
+// term GTERM[k] (the amount V_k grows by in this call); that GTERM[k] == x_lo*y_lo + x_hi*y_hi is what the S2 harness
+// h_accum_mul proves about the real step (V(res') - V(res) == TERM) -- the outer proof only needs that BOTH V_k and the ghost
+// accumulator ACC[k] grow by the same amount, so the 128-bit multipliers stay out of its formula (#ifdef LEAN_STEP).
+GHOST u128 GTERM[4];
 void accum_mul__c(uint64_t res[8], const uint32_t x_layb[8], const uint32_t y_layc[8])
 __CPROVER_requires(__CPROVER_is_fresh(res, 64) && __CPROVER_is_fresh(x_layb, 32) && __CPROVER_is_fresh(y_layc, 32))
 __CPROVER_requires(res[0] <= BUDGET - STEP_MAX && res[1] <= BUDGET - STEP_MAX && res[2] <= BUDGET - STEP_MAX && res[3] <= BUDGET - STEP_MAX && res[4] <= BUDGET - STEP_MAX && res[5] <= BUDGET - STEP_MAX && res[6] <= BUDGET - STEP_MAX && res[7] <= BUDGET - STEP_MAX)
-__CPROVER_assigns(__CPROVER_object_upto(res, 64), __CPROVER_object_whole(ACC))
+__CPROVER_assigns(__CPROVER_object_upto(res, 64), __CPROVER_object_whole(ACC), __CPROVER_object_whole(GTERM))
 __CPROVER_ensures(res[0] - __CPROVER_old(res[0]) <= STEP_MAX && res[1] - __CPROVER_old(res[1]) <= STEP_MAX && res[2] - __CPROVER_old(res[2]) <= STEP_MAX && res[3] - __CPROVER_old(res[3]) <= STEP_MAX)
 __CPROVER_ensures(res[4] - __CPROVER_old(res[4]) <= STEP_MAX && res[5] - __CPROVER_old(res[5]) <= STEP_MAX && res[6] - __CPROVER_old(res[6]) <= STEP_MAX && res[7] - __CPROVER_old(res[7]) <= STEP_MAX)
 __CPROVER_ensures(res[0] >= __CPROVER_old(res[0]) && res[1] >= __CPROVER_old(res[1]) && res[2] >= __CPROVER_old(res[2]) && res[3] >= __CPROVER_old(res[3]) && res[4] >= __CPROVER_old(res[4]) && res[5] >= __CPROVER_old(res[5]) && res[6] >= __CPROVER_old(res[6]) && res[7] >= __CPROVER_old(res[7]))
-__CPROVER_ensures(VK(res, 0) == VKOLD(res, 0) + TERM(x_layb, y_layc, 0) && VK(res, 1) == VKOLD(res, 1) + TERM(x_layb, y_layc, 1) && VK(res, 2) == VKOLD(res, 2) + TERM(x_layb, y_layc, 2) && VK(res, 3) == VKOLD(res, 3) + TERM(x_layb, y_layc, 3))
-__CPROVER_ensures(ACC[0] == __CPROVER_old(ACC[0]) + TERM(x_layb, y_layc, 0) && ACC[1] == __CPROVER_old(ACC[1]) + TERM(x_layb, y_layc, 1) && ACC[2] == __CPROVER_old(ACC[2]) + TERM(x_layb, y_layc, 2) && ACC[3] == __CPROVER_old(ACC[3]) + TERM(x_layb, y_layc, 3))
+__CPROVER_ensures(VK(res, 0) == VKOLD(res, 0) + GTERM[0] && VK(res, 1) == VKOLD(res, 1) + GTERM[1] && VK(res, 2) == VKOLD(res, 2) + GTERM[2] && VK(res, 3) == VKOLD(res, 3) + GTERM[3])
+__CPROVER_ensures(ACC[0] == __CPROVER_old(ACC[0]) + GTERM[0] && ACC[1] == __CPROVER_old(ACC[1]) + GTERM[1] && ACC[2] == __CPROVER_old(ACC[2]) + GTERM[2] && ACC[3] == __CPROVER_old(ACC[3]) + GTERM[3])
+#ifndef LEAN_STEP
+__CPROVER_ensures(GTERM[0] == TERM(x_layb, y_layc, 0) && GTERM[1] == TERM(x_layb, y_layc, 1) && GTERM[2] == TERM(x_layb, y_layc, 2) && GTERM[3] == TERM(x_layb, y_layc, 3))
+#endif
 ;
 #define MASK2 ((((uint64_t)1) << BBC_H) - 1)
 #define WF_BBC(p) ((p)->h == BBC_H && (p)->s2l_pow_red[0] < Q1 && (p)->s2l_pow_red[1] < Q2 && (p)->s2l_pow_red[2] < Q3 && (p)->s2l_pow_red[3] < Q4 && (p)->s2h_pow_red[0] < Q1 && (p)->s2h_pow_red[1] < Q2 && (p)->s2h_pow_red[2] < Q3 && (p)->s2h_pow_red[3] < Q4)
@@ -57,7 +64,7 @@ void bbc_ref__c(q120_mat1col_product_bbc_precomp* precomp, const uint64_t ell, q
 __CPROVER_requires(ell <= MAX_ELL && GK == LANE && ACC[0] == 0 && ACC[1] == 0 && ACC[2] == 0 && ACC[3] == 0)
 __CPROVER_requires(__CPROVER_is_fresh(precomp, sizeof(*precomp)) && WF_BBC(precomp))
 __CPROVER_requires(__CPROVER_is_fresh(res, 32) && __CPROVER_is_fresh(x, ell * 32) && __CPROVER_is_fresh(y, ell * 32))
-__CPROVER_assigns(__CPROVER_object_upto(res, 32), __CPROVER_object_whole(ACC), __CPROVER_object_whole(GS0), __CPROVER_object_whole(GS1))
+__CPROVER_assigns(__CPROVER_object_upto(res, 32), __CPROVER_object_whole(ACC), __CPROVER_object_whole(GTERM), __CPROVER_object_whole(GS0), __CPROVER_object_whole(GS1))
 __CPROVER_ensures((u128)GS0[GK] + (((u128)GS1[GK]) << 32) == ACC[GK]) /*@bbc_accumulator_words_sum_to_exact_sum_of_terms:C10,C04*/
 __CPROVER_ensures(GS0[GK] <= BUDGET && GS1[GK] <= BUDGET) /*@bbc_accumulators_within_budget_no_wrap:C04,C10*/
 __CPROVER_ensures((u128)((const uint64_t*)res)[GK] == (u128)GS0[GK] + (u128)(GS1[GK] & MASK2) * (u128)P1K(precomp) + (u128)(GS1[GK] >> BBC_H) * (u128)P2K(precomp)) /*@bbc_result_is_recombination_without_wrap:C10,C04*/
